@@ -32,9 +32,21 @@ def realize(x):
 
 
 def reached():
-    """Call right before the deciding assertion(s): counts paths that got there (vacuity accounting)."""
+    """Call right before the deciding assertion(s): counts paths that got there (vacuity accounting) and keeps the concrete
+    arguments of the first few such paths as evidence samples (only plain concrete values of the caller's frame are recorded)."""
     with nt():
         S["reached"] += 1
+        if len(S.setdefault("samples", [])) < 3:
+            try:
+                import sys
+                fr = sys._getframe(1)
+                if fr.f_code.co_name == "reached":
+                    fr = fr.f_back
+                args = {k: v for k, v in fr.f_locals.items()
+                        if type(v) in (int, bool, str, float, type(None)) or (type(v) in (list, tuple) and all(type(x) in (int, bool, str, float, type(None), tuple) for x in v) and len(v) <= 8)}
+                S["samples"].append({"harness": fr.f_code.co_name, "args": {k: (list(v) if isinstance(v, tuple) else v) for k, v in list(args.items())[:14]}})
+            except Exception:
+                pass
 
 
 def discard(why=""):
